@@ -357,6 +357,21 @@ def gen(rng, tier):
         h = mutate(rng, v1_header(rng) if v == 1 else v2_header(rng))
         s = h + payload(rng)
         cases.append(fam(s, 6 if not thorough else 17, f"v{v}-mutated"))
+    # version 2: EVERY family/protocol byte, with the LOCAL command (always accepted, byte ignored) and with the PROXY
+    # command (12 defined address families x protocols + UNSPEC accepted, the rest refused)
+    for fp in range(256):
+        for vc in (0x20, 0x21):
+            need = {1: 12, 2: 36, 3: 216}.get(fp >> 4, 0)
+            blen = rng.choice([0, 0, 5, need, need + 3]) if vc == 0x20 else rng.choice([need, need, need + 4, max(0, need - 1)])
+            body = bytes(rng.choice([0, 1, 255, rng.randrange(256)]) for _ in range(blen))
+            s = V2PREFIX + bytes([vc, fp]) + struct.pack("!H", blen) + body + rng.choice([b"", b"x", b"GET /\r\n"])
+            desc = "v2-local-anybyte" if vc == 0x20 else "v2-proxy-anybyte"
+            cases.append({"chunks": [s.hex()], "desc": desc})
+            cut = rng.randrange(1, len(s))
+            cases.append({"chunks": [s[:cut].hex(), s[cut:].hex()], "desc": desc})
+            if fp % 16 in (0, 3, 15) or fp >> 4 in (0, 4, 15):
+                if len(s) < 80:
+                    cases.append(fam(s, 6 if not thorough else 17, desc))
     # the 107-byte limit of version 1, with and without the CRLF, whole and cut around the limit
     for total in range(104, 111):
         body = b"PROXY UNKNOWN " + bytes(rng.choice(b"xyz 09:") for _ in range(total - 14))
@@ -384,6 +399,10 @@ def corpus():
         c([h4[:10], h4[10:] + b"xyz"], "F19 v2 first delivery < 16"),
         c([b"PROXY TCP4 1.1.1.1 2.2.2.2 1 2\r\nabc"], "v1 whole"),
         c([h4 + b"xyz"], "v2 whole"),
+        # LOCAL command: the family/protocol byte is ignored, whatever it is
+        c([V2PREFIX + b"\x20\xff\x00\x00" + b"health"], "v2 LOCAL with family/protocol byte 0xff"),
+        c([V2PREFIX + b"\x20\x03\x00\x03abc", b"xyz"], "v2 LOCAL with protocol nibble 3 and 3 ignored bytes"),
+        c([V2PREFIX + b"\x20\x40\x00\x00"], "v2 LOCAL with family nibble 4"),
         # found while modelling
         c([b"PROXY UNKNOWN " + b"x" * 150 + b"\r\nabc"], "v1 line of 166 bytes accepted at once"),
         c([b"PROXY UNKNOWN " + b"x" * 100, b"x" * 50 + b"\r\nabc"], "... refused when split"),
